@@ -127,6 +127,7 @@ func (vc *VC) declLocal(st *State, id *ast.Ident, val Term) {
 		return
 	}
 	val = vc.convertTo(val, v.Type())
+	isZeroVal := val.Sort != nil && val.S == vc.U.zero(val.Sort)
 	val = vc.bind(v.Name(), val)
 	if vc.freshResult[val.S] && vc.nonEscaping[v] {
 		vc.owned = append(vc.owned, val)
@@ -135,6 +136,19 @@ func (vc *VC) declLocal(st *State, id *ast.Ident, val Term) {
 		ref := vc.newRef(st)
 		vc.storeRef(st, ref, val.Sort, val.S)
 		vc.declareVar(st, v, Term{ref, &Sort{Kind: KRef, Name: "Int", Elem: val.Sort}})
+		// `var b T` (zero value): ghost fields declared zeroinit start at their zero value
+		if _, isStruct := v.Type().Underlying().(*types.Struct); isStruct && isZeroVal {
+			ps := vc.U.sortOf(types.NewPointer(v.Type()))
+			if n := namedOf(ps.GoT); n != nil && n.Obj().Pkg() != nil {
+				for _, gf := range vc.eng.ghostFields[n.Obj().Pkg().Path()+"."+n.Obj().Name()] {
+					if gf.ZeroInit {
+						c := vc.newSpecCtx(nil, st, st)
+						t := c.ghostFieldRead(st, Term{ref, ps}, gf)
+						vc.assume(st, sEq(t.S, vc.U.zero(t.Sort)))
+					}
+				}
+			}
+		}
 		return
 	}
 	vc.declareVar(st, v, val)
@@ -1311,7 +1325,7 @@ func (vc *VC) execRange(st *State, x *ast.RangeStmt) *State {
 			// this iteration's key has not been visited; a normal end of the loop has visited every key
 			vc.assume(body, sNot("(select "+head.vars[visVar].S+" "+hiddenKey.S+")"))
 			if d, ok := domOf(exit); ok {
-				vc.assume(exit, fmt.Sprintf("(forall ((x!v %s)) (! (=> (select %s x!v) (select %s x!v)) :pattern ((select %s x!v))))", visSort.Elem.Name, d.S, exit.vars[visVar].S, exit.vars[visVar].S))
+				vc.assume(exit, fmt.Sprintf("(forall ((x!v %s)) (! (=> (select %s x!v) (select %s x!v)) :pattern ((select %s x!v)) :pattern ((select %s x!v))))", visSort.Elem.Name, d.S, exit.vars[visVar].S, exit.vars[visVar].S, d.S))
 			}
 		}
 	}
